@@ -166,10 +166,19 @@ def open_channel_case(nlive):
             for ev in (t.channel_events.values() if ctx.symbolic else list(t.channel_events.values())):
                 ev.set()                          # the peer confirms
         t._send_user_message = send_user
+        win = ctx.choice("window_size-argument", [None, 40000, 2 ** 21 + 7])
         with ctx.patches(std_patches(PM, PU, builtins=("int",))):
-            ch = t.open_channel("session")
+            ch = t.open_channel("session", window_size=win)
             n_api = len(t.lock_held_at)
             r2 = t._next_channel()
+            # the receive window the channel accounts with is the one it advertised to the peer in CHANNEL_OPEN (a mismatch
+            # means window adjusts are computed against another number than the peer's view: the flow-control invariant
+            # of C20 starts from here)
+            sent_open = PM.Message(t.sent[0].asbytes())
+            sent_open.get_byte(), sent_open.get_text(), sent_open.get_int()
+            advertised = sent_open.get_int()
+        ctx.prove(lift(ch.in_window_size) == advertised, "local-window==the-window-advertised-in-CHANNEL_OPEN")
+        ctx.prove(lift(ch.in_window_threshold) == advertised // 10, "window-adjust-threshold==a-tenth-of-the-advertised-window")
         _lock_discipline(ctx, t, n_api)
         cid = ch.chanid if ctx.symbolic else ch.get_id()
         _fresh(ctx, cid, live, "locally-opened-id-not-live")
